@@ -671,6 +671,14 @@ func (g *gen) balance() string {
 }
 
 func genCase(r *hlib.Rng) *Case {
+	c, g := genWorld(r)
+	genMessage(g, c, c)
+	return c
+}
+
+// genWorld: environment and accounts (2-4 generated contracts with an acyclic call graph, the three
+// auxiliary contracts, three EOAs)
+func genWorld(r *hlib.Rng) (*Case, *gen) {
 	g := &gen{r: r, k: 2 + r.Intn(3)}
 	c := baseCase("generated")
 	c.PTN = []uint64{ptnPost, ptnPost, ptnPost, ptnPre, ptnPre, ptnHold}[r.Intn(6)]
@@ -680,10 +688,6 @@ func genCase(r *hlib.Rng) *Case {
 	g.price = c.Price
 	c.Elig = r.Chance(80)
 	c.ACL = r.Chance(65)
-	if c.ACL && r.Chance(12) {
-		c.ALDrop = 1 + r.Intn(40)
-	}
-	c.Gas = 400000 + uint64(r.Intn(3000000))
 	c.with(ea(1, rich))
 	for i := 2; i <= 3; i++ {
 		c.with(ea(i, g.balance()))
@@ -697,6 +701,16 @@ func genCase(r *hlib.Rng) *Case {
 	}
 	if r.Chance(30) {
 		c.with(Acct{Addr: zeroHex, Bal: fmt.Sprint(r.Intn(50))})
+	}
+	return c, g
+}
+
+// genMessage draws the message fields of c (a message applied to world w; w == c for a single-message case)
+func genMessage(g *gen, w *Case, c *Case) {
+	r := g.r
+	c.From, c.Value, c.Price, c.Gas = eoa(1), "0", g.price, 400000+uint64(r.Intn(3000000))
+	if w.ACL && r.Chance(12) {
+		c.ALDrop = 1 + r.Intn(40)
 	}
 	switch r.Pick(50, 10, 9, 10, 5, 3, 13) {
 	case 0:
@@ -715,10 +729,12 @@ func genCase(r *hlib.Rng) *Case {
 		c.Data = suicideData(g.beneficiary(0))
 	case 5:
 		c.From, c.To = kquaiHex, eoa(2)
-		c.with(Acct{Addr: kquaiHex, Bal: rich})
+		if !w.has(kquaiHex) {
+			w.with(Acct{Addr: kquaiHex, Bal: rich})
+		}
 		c.Data = hex.EncodeToString([]byte([]string{"freeze", "unfreeze", "bogus", "update\x01"}[r.Intn(4)]))
 		if r.Chance(30) {
-			c.Block = params.BlocksPerYear + 5
+			w.Block = params.BlocksPerYear + 5
 		}
 	case 6:
 		c.Inbound, c.Price = true, "0"
@@ -751,12 +767,20 @@ func genCase(r *hlib.Rng) *Case {
 		case 3:
 			c.Nonce = 1 + uint64(r.Intn(3))
 		case 4:
-			c.Price = new(big.Int).Sub(bi(c.BaseFee), big.NewInt(1)).String()
+			c.Price = new(big.Int).Sub(bi(w.BaseFee), big.NewInt(1)).String()
 		case 5:
-			c.Pool = c.Gas - 1
+			w.Pool = c.Gas - 1
 		case 6:
 			c.Value = rich // with the gas on top: more than the sender has
 		}
 	}
-	return c
+}
+
+func (c *Case) has(addr string) bool {
+	for _, a := range c.Accts {
+		if a.Addr == addr {
+			return true
+		}
+	}
+	return false
 }
